@@ -50,3 +50,21 @@ def load_repo():
 def tensor_mod():
     # the package __init__ shadows the submodule name with the function ``tensor``
     return sys.modules["synapgrad.tensor"]
+
+
+def grad_enabled():
+    """gradient mode observed through the public API: a fresh product of a tensor that asks for gradients requires grad
+    exactly when gradient mode is on (no reliance on the module-level flag the pinned tree keeps it in)"""
+    import numpy as np
+    import synapgrad
+    x = synapgrad.Tensor(np.ones((1,), dtype=np.float32), requires_grad=True)
+    return bool((x * 2.0).requires_grad)
+
+
+def reset_modes():
+    """best effort: put the pinned tree's module-level mode flags back to their defaults, if it still has them"""
+    tm = tensor_mod()
+    if hasattr(tm, "gradient__"):
+        tm.gradient__ = True
+    if hasattr(tm, "retain_grads__"):
+        tm.retain_grads__ = False
